@@ -155,6 +155,7 @@ func runC06(c *Ctx, phase string) {
 	c.Floor("trees_with_ref_under_or", 50)
 	c.Floor("trees_with_respelled_duplicate", 50)
 	c.Floor("results_with_6plus_terms", 20)
+	c.Floor("trees_with_17plus_distinct_terms", 200)
 	c.Floor("canon_checks", 5000)
 
 	// every listed id, every valid spelling, as a single term
@@ -175,7 +176,8 @@ func runC06(c *Ctx, phase string) {
 		if !c.Mine(i) {
 			continue
 		}
-		tc := genRandomTree(c, "C06", i, int64(c.Pick(512, 4096)))
+		tc := genRandomTreeK(c, "C06", i, int64(c.Pick(512, 4096)), 40) // up to 40 distinct terms: no truth table is needed here
+		c.CountIf(len(tc.Terms) >= 17, "trees_with_17plus_distinct_terms")
 		// make re-spelled duplicates common: one time in three add a case variant of an existing license leaf
 		r := gen.NewRand(c.Seed, 0xC06, uint64(i))
 		if r.Chance(1, 3) {
